@@ -3,6 +3,8 @@
 mod scen;
 mod script;
 mod pure;
+mod lock;
+mod ops;
 
 use std::io::Read;
 
@@ -18,7 +20,7 @@ fn main() {
     let mut input = String::new();
     let mode = args.get(1).map(|s| s.as_str()).unwrap_or("");
     match mode {
-        "seq" | "builder" | "selector" | "chanops" => {
+        "seq" | "builder" | "selector" | "chanops" | "lock" => {
             std::io::stdin().read_to_string(&mut input).unwrap();
         }
         _ => {}
@@ -28,6 +30,7 @@ fn main() {
         "builder" => pure::run_builder(&input),
         "selector" => pure::run_selector(&input),
         "chanops" => pure::run_chanops(&input),
+        "lock" => lock::run_lock(&input),
         _ => {
             eprintln!("usage: harness seq|builder|selector|chanops");
             std::process::exit(2);
